@@ -123,6 +123,10 @@ EvalStep ==
                    compact |-> HasCompact(j.rule)] IN
        /\ \A f \in fails : Report(f[1], f[2], j.rid)
        /\ IF j.same THEN TRUE ELSE Report("C15", "architecture-changed-by-evaluation", j.rid)
+       \* session replays (Session.tla) also evaluate the configuration in isolation - fresh architecture, fresh
+       \* rule object - and log whether verdict and message were the same
+       /\ IF "fresh_same" \in DOMAIN j /\ ~j.fresh_same
+          THEN Report("C15", "outcome-depends-on-history-or-object-reuse", j.rid) ELSE TRUE
        /\ IF key \in DOMAIN results
           THEN /\ IF results[key].out = j.out /\ results[key].obs = ObsOf(j)
                   THEN TRUE ELSE Report("C15", "re-evaluation-differs", j.rid)
